@@ -731,12 +731,65 @@ class Interp:
             t = self.fx.thir.get(n["fn"])
             if t is None or not self._may_inline(n["fn"], t):
                 continue
-            for a in n.get("args", []) or []:
-                if self._is_mut_borrow(a):
+            for i, a in enumerate(n.get("args", []) or []):
+                if self._is_mut_borrow(a) and self._stores_through(n["fn"], i, 0):
                     v = self._place_var(a)
                     if v is not None and v not in out:
                         out.append(v)
         return out
+
+    def _stores_through(self, fn, i, depth):
+        """Does workspace function `fn` assign through its i-th parameter (`p.f = ..`, `*p = ..`, mem::replace/swap/take on it), itself
+        or by handing it on to another workspace function that does?  (Calls into other crates cannot be seen into: a `&mut NsReader`
+        that is only passed to quick-xml is not loop state of ours.)"""
+        key = (fn, i)
+        cache = self.__dict__.setdefault("_st_cache", {})
+        if key in cache:
+            return cache[key]
+        cache[key] = False
+        t = self.fx.thir.get(fn)
+        if t is None or depth > 3:
+            return False
+        params = [p for p in t.get("params", []) if p.get("pat") is not None]
+        if i >= len(params) or (params[i].get("pat") or {}).get("k") != "Bind":
+            return False
+        pn = params[i]["pat"]["name"]
+
+        def base_var(x):
+            for _ in range(8):
+                x = T.peel(x) if isinstance(x, dict) else x
+                if not isinstance(x, dict):
+                    return None
+                if x.get("k") == "Var":
+                    return x["name"]
+                if x.get("k") == "Field":
+                    x = x["lhs"]
+                elif x.get("k") in ("Deref", "Borrow", "Scope", "Use") and x.get("arg") is not None:
+                    x = x["arg"]
+                else:
+                    return None
+            return None
+        res = False
+        for n in T.walk(self.body_of(t)):
+            k = n.get("k")
+            if k in ("Assign", "AssignOp") and base_var(n["lhs"]) == pn:
+                res = True
+                break
+            if k == "Call" and n.get("fn"):
+                s2 = T.short(n["fn"], 2)
+                args = n.get("args", []) or []
+                if s2 in ("mem::replace", "mem::swap", "mem::take") and any(self._place_var(a) == pn for a in args):
+                    res = True
+                    break
+                if n["fn"] in self.fx.thir:
+                    for j, a in enumerate(args):
+                        if self._place_var(a) == pn and self._stores_through(n["fn"], j, depth + 1):
+                            res = True
+                            break
+                    if res:
+                        break
+        cache[key] = res
+        return res
 
     def ev_try(self, e, env, depth):
         v = self.ev(e["arg"], env, depth)
